@@ -57,6 +57,8 @@ type Super struct {
 	unitsOK int
 	unitsAb []string
 	start   time.Time
+	mechCov map[string]float64
+	covNote string
 }
 
 // Tier returns the tier of the run.
@@ -245,6 +247,9 @@ func (s *Super) runChild(args []string, stderrName string) (int, error) {
 	cmd.Stderr = ef
 	cmd.Stdout = ef
 	cmd.Env = append(os.Environ(), "GOTRACEBACK=all")
+	if !s.o.Prop.Race {
+		cmd.Env = append(cmd.Env, "GOCOVERDIR="+filepath.Join(s.RunDir, "cov"))
+	}
 	if s.o.Prop.Race {
 		cmd.Env = append(cmd.Env, "GORACE=halt_on_error=0 log_path="+filepath.Join(s.RunDir, "race"+strings.TrimSuffix(strings.TrimPrefix(stderrName, "shard"), ".stderr")))
 	}
@@ -512,6 +517,7 @@ func RunSuper(o SuperOpts, out io.Writer) int {
 	s := &Super{o: o, NT: map[uint64]struct{}{}, ObsMap: map[string]int64{}, viols: map[string]*Viol{}, start: time.Now()}
 	s.RunDir = filepath.Join(o.VerifDir, ".run", o.Prop.ID)
 	os.RemoveAll(s.RunDir)
+	os.MkdirAll(filepath.Join(s.RunDir, "cov"), 0o755)
 	if err := os.MkdirAll(s.RunDir, 0o755); err != nil {
 		fmt.Fprintf(out, "INCONCLUSIVE property=%s reason=cannot create run dir: %v\n", o.Prop.ID, err)
 		return 2
@@ -535,6 +541,7 @@ func RunSuper(o SuperOpts, out io.Writer) int {
 	if o.Prop.Race {
 		s.collectRaces()
 	}
+	s.collectCoverage()
 	if o.Prop.Finish != nil {
 		func() {
 			defer func() {
@@ -677,6 +684,12 @@ func (s *Super) writeEvidence(nViol int, nt int64, knownHit []string) {
 		"inconclusive":        s.incon,
 		"jobs":                o.Jobs,
 	}
+	if s.mechCov != nil {
+		cov["mechanism_coverage_percent"] = s.mechCov
+	}
+	if s.covNote != "" {
+		cov["mechanism_coverage_note"] = s.covNote
+	}
 	ev := map[string]interface{}{
 		"property_id": o.Prop.ID,
 		"tier":        o.Tier,
@@ -802,4 +815,66 @@ func raceSignature(blk string) string {
 		return "nonlib-" + hex.EncodeToString(h[:4])
 	}
 	return strings.Join(fns, "~")
+}
+
+// collectCoverage reads the compiler's coverage counters written by the
+// children of this run (the harness binary is built with -cover over the
+// library packages) and records the statement coverage of every function of
+// the property's anchored files; a required mechanism that was never executed
+// makes the run inconclusive.
+func (s *Super) collectCoverage() {
+	p := s.o.Prop
+	if p.Race || len(p.CoverFiles) == 0 {
+		return
+	}
+	dir := filepath.Join(s.RunDir, "cov")
+	ents, _ := os.ReadDir(dir)
+	if len(ents) == 0 {
+		s.covNote = "no coverage data written (child binary not built with -cover)"
+		return
+	}
+	cmd := exec.Command("go", "tool", "covdata", "func", "-i="+dir)
+	cmd.Env = append(os.Environ(), "GOFLAGS=-mod=mod", "GOTOOLCHAIN=local")
+	out, err := cmd.Output()
+	if err != nil {
+		s.covNote = "go tool covdata failed: " + err.Error()
+		return
+	}
+	s.mechCov = map[string]float64{}
+	const prefix = "github.com/Tom-Johnston/mamba/"
+	for _, line := range strings.Split(string(out), "\n") {
+		f := strings.Fields(line)
+		if len(f) != 3 || !strings.HasPrefix(f[0], prefix) {
+			continue
+		}
+		loc := strings.TrimPrefix(f[0], prefix) // graph/canonical.go:31:
+		parts := strings.Split(loc, ":")
+		file := parts[0]
+		keep := false
+		for _, cf := range p.CoverFiles {
+			if file == cf {
+				keep = true
+			}
+		}
+		for _, m := range p.Mechanisms {
+			if strings.HasPrefix(m, file+":") {
+				keep = true
+			}
+		}
+		if !keep {
+			continue
+		}
+		pct, _ := strconv.ParseFloat(strings.TrimSuffix(f[2], "%"), 64)
+		s.mechCov[file+":"+f[1]] = pct
+	}
+	for _, m := range p.Mechanisms {
+		v, ok := s.mechCov[m]
+		if !ok {
+			s.covNote += "mechanism " + m + " not found in the coverage table; "
+			continue
+		}
+		if v <= 0 {
+			s.Inconclusive("mechanism " + m + " was never executed by this run (coverage 0%): the monitor did not reach what it is there to watch")
+		}
+	}
 }
